@@ -96,7 +96,11 @@ func genPositionsWalk(r *rand.Rand, n int) []Step {
 		case 5:
 			st = append(st, Step{"a": "perpClose", "u": u, "id": float64(1 + r.Intn(nextPerp)), "frac": pick(r, "one", "third", "half", "all", "allbut1")})
 		case 6:
-			st = append(st, Step{"a": "feed", "asset": "ATOM", "mul": pick(r, "0.8", "0.9", "0.97", "1.03", "1.1", "1.25")})
+			if r.Intn(5) == 0 { // the base currency drifts around its peg
+				st = append(st, Step{"a": "feed", "asset": "USDC", "px": pick(r, "1.02", "0.98", "1", "1.01", "0.99")})
+			} else {
+				st = append(st, Step{"a": "feed", "asset": "ATOM", "mul": pick(r, "0.8", "0.9", "0.97", "1.03", "1.1", "1.25")})
+			}
 		case 7:
 			reqs := []any{}
 			for k := 0; k < 1+r.Intn(3); k++ {
@@ -136,7 +140,26 @@ func genPositionsWalk(r *rand.Rand, n int) []Step {
 func genScenario(r *rand.Rand, i int) []Step {
 	blk := func(dt int) Step { return Step{"a": "block", "dt": float64(dt)} }
 	u, v := pick(r, "u2", "u3"), "u1"
-	switch i % 16 {
+	switch i % 19 {
+	case 18: // the base currency is quoted off its peg while a bot names positions whose stop-loss / take-profit the trading asset's
+		// oracle price has NOT reached (a long's stop-loss 1-2 % below the market, a short's take-profit 1-2 % below the market)
+		return []Step{{"a": "perpOpen", "u": u, "p": float64(1), "side": "long", "coll": "uusdc", "sz": "s1", "lev": "2", "sl": pick(r, "0.99", "0.985")},
+			{"a": "perpOpen", "u": v, "p": float64(1), "side": "short", "coll": "uusdc", "sz": "s1", "lev": "2", "tp": pick(r, "0.99", "0.985")}, blk(5),
+			{"a": "feed", "asset": "USDC", "px": pick(r, "1.02", "1.03")}, blk(5),
+			{"a": "perpClosePositions", "u": "bot", "exact": true, "liq": []any{}, "sl": []any{[]any{u, float64(1)}}, "tp": []any{[]any{v, float64(2)}}}, blk(5),
+			{"a": "feed", "asset": "USDC", "px": pick(r, "0.97", "0.98")}, blk(5),
+			{"a": "perpClosePositions", "u": "bot", "exact": true, "liq": []any{}, "sl": []any{[]any{v, float64(2)}}, "tp": []any{[]any{u, float64(1)}}}, blk(5),
+			{"a": "feed", "asset": "USDC", "px": "1"}, blk(5)}
+	case 17: // three borrowers (the sweep refreshes two per block), weeks pass, then every borrower deposits into the vault in one block
+		// (one of them while its own loan still carries interest nobody has booked yet) and withdraws at once
+		return []Step{{"a": "levOpen", "u": "u2", "p": float64(1), "sz": "s2", "lev": "5"}, {"a": "levOpen", "u": "u1", "p": float64(1), "sz": "s2", "lev": "3"},
+			{"a": "levOpen", "u": "u3", "p": float64(1), "sz": "s2", "lev": "4"}, blk(5), blk(86400 * pick(r, 20, 45)),
+			{"a": "bond", "u": "u1", "sz": "50000000000"}, {"a": "bond", "u": "u2", "sz": "50000000000"}, {"a": "bond", "u": "u3", "sz": "50000000000"},
+			{"a": "unbond", "u": "u1", "frac": "all"}, {"a": "unbond", "u": "u2", "frac": "all"}, {"a": "unbond", "u": "u3", "frac": "all"}, blk(5)}
+	case 16: // a highly leveraged position turns unhealthy inside the one-hour lock of its shares and the OWNER asks to close it in the block
+		// of the price move, before any liquidator acts (an owner's close is no liquidation: the lock still binds)
+		return []Step{{"a": "levOpen", "u": u, "p": float64(1), "sz": pick(r, "s1", "s2"), "lev": "9"}, blk(5), blk(pick(r, 5, 600)),
+			{"a": "feed", "asset": "ATOM", "mul": pick(r, "0.85", "0.8")}, {"a": "levClose", "u": u, "id": float64(1), "frac": pick(r, "all", "half")}, blk(5), blk(5)}
 	case 15: // a leveraged position worth more than the pool's own USDC reserve whose stop-loss is reached at once: after the lock the
 		// sweep / a bot tries to close it, the single-sided exit would leave the pool short of USDC and the amm hook refuses it
 		return []Step{{"a": "levOpen", "u": u, "p": float64(1), "sz": pick(r, "250000000000", "300000000000"), "lev": pick(r, "5", "4.5"), "sl": "1000000000"},
